@@ -9,6 +9,10 @@ namespace SppModel.Vec
 def zerosB (n : Nat) : List Bool := List.replicate n false
 def lor (a b : List Bool) : List Bool := List.zipWith (· || ·) a b
 def land (a b : List Bool) : List Bool := List.zipWith (· && ·) a b
+/-- `~mask`, `vec[mask]` (Boolean selection) -/
+def lnot (a : List Bool) : List Bool := a.map (fun b => !b)
+def compress (v : List Rat) (m : List Bool) : List Rat :=
+  (List.zip v m).filterMap (fun p => if p.2 then some p.1 else none)
 /-- `vec >= s`, `vec <= s` -/
 def geS (v : List Rat) (s : Rat) : List Bool := v.map (fun x => decide (x ≥ s))
 def leS (v : List Rat) (s : Rat) : List Bool := v.map (fun x => decide (x ≤ s))
